@@ -10,7 +10,8 @@ import "verifharness/tl"
 // New/push/cancel/Wait; random stress (cancel after everything ran => progress is checked; cancel at a random
 // moment => exactly-once under cancellation).
 func main() {
-	tl.Main("C06", []tl.Family{{Name: "scripted", Run: scripted}, {Name: "timeoutrace", Run: timeoutrace}, {Name: "stress", Run: stress}})
+	tl.Main("C06", []tl.Family{{Name: "scripted", Run: scripted}, {Name: "timeoutrace", Run: timeoutrace}, {Name: "stress", Run: stress},
+		{Name: "panicnil1", Run: panicnil1, Env: []string{"GODEBUG=panicnil=1"}}})
 }
 
 func scripted(en *tl.Engine) {
@@ -25,6 +26,8 @@ func scripted(en *tl.Engine) {
 			en.TaskKinds(n, q, 3)
 			en.Reentrant(n, q)
 			en.DropHandle(n, q)
+			en.NilTasks(n, q, 2)
+			en.PanicNil(n, q)
 			for k := 0; k < 4; k++ {
 				en.CancelInsidePush(n, q, k, k%2 == 1)
 			}
@@ -72,5 +75,16 @@ func stress(en *tl.Engine) {
 	for i := 0; i < big; i++ {
 		n, q := 1+en.Rng.Intn(4), en.Rng.Intn(4)
 		en.Stress(n, q, tl.StressOpt{Big: true, PanicPct: 10, Observers: 1, CancelMode: 0, Kinds: true}, i)
+	}
+}
+
+// the same panic scenarios in a process running with GODEBUG=panicnil=1 (panic(nil) makes recover() return nil)
+func panicnil1(en *tl.Engine) {
+	for _, c := range tl.Configs() {
+		en.PanicNil(c[0], c[1])
+	}
+	for i := 0; i < 60; i++ {
+		n, q := 1+en.Rng.Intn(3), en.Rng.Intn(3)
+		en.Stress(n, q, tl.StressOpt{PanicPct: 40, Observers: 0, CancelMode: 1, Kinds: true}, i)
 	}
 }
